@@ -128,7 +128,7 @@ def run(ctx):
     # L5b EVERY-ITEM-FORWARDED: in the loops of the group flush that hand commits / frames on (to the WAL, to write_payload_to_wal, or
     # into the buffer that is appended), the forwarding call runs on every iteration: no path from the loop's "next item" arm back to
     # the loop header avoids it.  A conditional skip (a page "already seen" in this batch) drops a committed transaction's image.
-    from paths import exhausted_edges
+    from paths import exhausted_edges, switch_cond_origin
     n5b = 0
     for fid in (T + "execute_group_wal_flush", T + "write_payload_to_wal"):
         f0 = m.fn(fid)
@@ -151,7 +151,16 @@ def run(ctx):
                     if b in seen_:
                         continue
                     seen_.add(b)
-                    for nx in f.succ(b, unwind=False):
+                    nxs = f.succ(b, unwind=False)
+                    t_ = f.blocks[b]["t"]
+                    if t_[0] == "switch" and t_[2] == "bool":
+                        o_ = switch_cond_origin(f, b)
+                        if o_ and o_[0] == "call" and o_[1] is not None and o_[1].name.rsplit("::", 1)[-1] == "is_empty":
+                            # skipping an item that is empty forwards nothing less: follow only the non-empty arm
+                            false_t = [x[1] for x in t_[3] if x[0] == 0] or [t_[4]]
+                            true_t = [x[1] for x in t_[3] if x[0] == 1] or [t_[4]]
+                            nxs = true_t if o_[2] else false_t
+                    for nx in nxs:
                         if nx == h:
                             skip = True
                         elif nx in body and nx not in inside:
